@@ -366,3 +366,12 @@ Definition prop_c12_b (toks : list token) (m : msg) (o : qstr) : bool :=
   then subseqb o full && (lenN full <=? lenN o + budget m toks)
   else qeqb o full end.
 Definition oracle_pattern (p : qstr) (m : msg) (o : qstr) : bool := prop_c12_b (parse_pattern p) m o.
+
+(* ---- null or empty?  (LogMessage::isFormatted() is !isNull(): a NULL result makes every sink print
+   the raw message instead of the formatted text.)  With at least one token the result is a string that
+   format() built - never null, even when no token emitted anything; without tokens it is the message
+   object itself, null iff the message is. *)
+Definition result_is_null (toks : list token) (msg_null : bool) : bool :=
+  match toks with [] => msg_null | _ => false end.
+Definition oracle_pattern_null (p : qstr) (m : msg) (msg_null : bool) (o : qstr) (o_null : bool) : bool :=
+  oracle_pattern p m o && Bool.eqb o_null (result_is_null (parse_pattern p) msg_null).
